@@ -103,13 +103,19 @@ impl TcpStream {
         // Until the handshake completes this attempt owns the stream entry it
         // registered. If the connection is refused, or this future is dropped
         // (e.g. by a timeout), the entry and its ephemeral port are released.
-        let mut pending = PendingConnect(Some(pair));
+        let mut pending = PendingConnect {
+            pair: Some(pair),
+            abandoned: true,
+        };
 
         syn_ack.await.map_err(|_| {
+            // Refused by the remote: nothing there can hold a stream for this
+            // attempt, so no RST is needed.
+            pending.abandoned = false;
             io::Error::new(io::ErrorKind::ConnectionRefused, pair.remote.to_string())
         })?;
 
-        pending.0 = None;
+        pending.pair = None;
 
         tracing::trace!(target: TRACING_TARGET, src = ?pair.remote, dst = ?pair.local, protocol = %"TCP SYN-ACK", "Recv");
 
@@ -207,12 +213,33 @@ impl TcpStream {
 }
 
 /// Removes the stream entry of a connect attempt that did not complete.
-struct PendingConnect(Option<SocketPair>);
+///
+/// If the attempt is abandoned while it is still pending (the future is
+/// dropped: a timeout, a cancelled task, a host crash) the listener may
+/// already have accepted it - the SYN-ACK is an in-memory one-shot that the
+/// connector has not observed yet. The accepted stream must not be left
+/// half-open, so the remote is sent an RST; it is ignored there if nothing
+/// was accepted.
+struct PendingConnect {
+    pair: Option<SocketPair>,
+    abandoned: bool,
+}
 
 impl Drop for PendingConnect {
     fn drop(&mut self) {
-        if let Some(pair) = self.0.take() {
-            World::current_if_set(|world| world.current_host_mut().tcp.reset_stream(pair));
+        if let Some(pair) = self.pair.take() {
+            let abandoned = self.abandoned;
+            World::current_if_set(|world| {
+                world.current_host_mut().tcp.reset_stream(pair);
+                if abandoned {
+                    let message = Protocol::Tcp(Segment::Rst);
+                    if is_same(pair.local, pair.remote) {
+                        send_loopback(pair.local, pair.remote, message);
+                    } else {
+                        let _ = world.send_message(pair.local, pair.remote, message);
+                    }
+                }
+            });
         }
     }
 }
